@@ -104,8 +104,11 @@ def _prune_builds(prefix, keep):
     except FileNotFoundError:
         return
     ds.sort(key=lambda d: os.path.getmtime(os.path.join(BUILD, d)))
+    now = time.time()
     for d in ds[:-keep]:
-        shutil.rmtree(os.path.join(BUILD, d), ignore_errors=True)
+        # never remove a build that was used recently: another check (another tree) may still be running with it
+        if now - os.path.getmtime(os.path.join(BUILD, d)) > 3 * 3600:
+            shutil.rmtree(os.path.join(BUILD, d), ignore_errors=True)
 
 
 def build(variant):
